@@ -271,8 +271,14 @@ def run_paths(spec, acc):
 # (c) + (d) directives
 
 
+# strings that spell the words of other literal syntaxes (they are strings, and stay strings)
+WORD_STRINGS = ['true', 'false', 'TRUE positive rate', 'FALSE alarms', 'True', 'none', 'null', 'None',
+                'nan', 'inf', '1e3', '0x10', 'is true', 'x=false', 'lambda: 0', '[1, 2]']
+
+
 def lit(rng):
-  return rng.choice([1, -2, 2.5, 'x', 'a,b', 'p(q)', "it's", None, True, [1, 'c,d'], {'k': (1, 2)}, (3,), -0.5])
+  return rng.choice([1, -2, 2.5, 'x', 'a,b', 'p(q)', "it's", None, True, [1, 'c,d'], {'k': (1, 2)}, (3,), -0.5,
+                     rng.choice(WORD_STRINGS), [rng.choice(WORD_STRINGS)], {rng.choice(WORD_STRINGS): 1}])
 
 
 def make_flag():
@@ -489,13 +495,15 @@ def rand_literal(rng, depth=2):
   r = rng.random()
   if depth <= 0 or r < 0.5:
     return rng.choice([0, -1, 2**65, -2.5, 1e10, 'a', 'with, comma', 'p(a)r', "q'uote", 'd"q', '', None, True,
-                       False, b'by', 3 + 2j, -4j, ...][:-1] + [rng.randint(-1000, 1000)])
+                       False, b'by', 3 + 2j, -4j, ...][:-1] + [rng.randint(-1000, 1000)]
+                      + [rng.choice(WORD_STRINGS), rng.choice(WORD_STRINGS)])
   if r < 0.65:
     return [rand_literal(rng, depth - 1) for _ in range(rng.randint(0, 3))]
   if r < 0.8:
     return tuple(rand_literal(rng, depth - 1) for _ in range(rng.randint(0, 3)))
   if r < 0.9:
-    return {rng.choice(['k', 1, (1, 2), None]): rand_literal(rng, depth - 1) for _ in range(rng.randint(0, 2))}
+    return {rng.choice(['k', 1, (1, 2), None, 'true', 'False']): rand_literal(rng, depth - 1)
+            for _ in range(rng.randint(0, 2))}
   return {rng.choice([1, 'x', (2,)]) for _ in range(rng.randint(1, 2))}
 
 
